@@ -68,6 +68,7 @@ struct Run<'a> {
     fam: VecFamily,
     out: &'a mut JsonOut,
     ni: u64,
+    bulk_calls: u64,
 }
 
 impl<'a> Run<'a> {
@@ -124,8 +125,18 @@ impl<'a> Run<'a> {
     }
     /// bulk_query over all abstract ids (plus one duplicate), one read event per position
     fn bulk(&mut self, with_vec: bool) {
+        // every id at least once (the model's bulk read covers all ids), with a repeated id in a seeded position:
+        // [1..ni, 1], [1, 1, 2..ni] (adjacent repeat followed by others) or [ni, 1..ni, ni]
+        self.bulk_calls += 1;
         let mut ids: Vec<u64> = (1..=self.ni).collect();
-        ids.push(1);
+        match self.bulk_calls % 3 {
+            0 => ids.push(1),
+            1 => ids.insert(0, 1),
+            _ => {
+                ids.insert(0, self.ni);
+                ids.push(self.ni);
+            }
+        }
         let r = guarded(|| Ok(self.eng.bulk_query(&ids, with_vec)));
         let t = if with_vec { "bulk" } else { "bulknovec" };
         match r {
@@ -223,7 +234,7 @@ fn main() -> anyhow::Result<()> {
             }
         };
         let proj = Projector::new(fam.clone(), ni, nv);
-        let mut run = Run { eng, strat, qc, proj, fam: fam.clone(), out: &mut outw, ni };
+        let mut run = Run { eng, strat, qc, proj, fam: fam.clone(), out: &mut outw, ni, bulk_calls: 0 };
 
         let steps = b["steps"].as_array().cloned().unwrap_or_default();
         for st in steps.iter() {
